@@ -45,7 +45,7 @@ def run(ctx):
         if q:
             n = 16 if vi == 4 else 6
             idx = sorted(set([(ctx.seed * 7 + i * (len(rules) // n)) % len(rules) for i in range(n)] +
-                             [rules.index(r) for r in ('funcdef', 'type_params', 'eval_input', 'typedargslist', 'dictorsetmaker', 'import_from')
+                             [rules.index(r) for r in ('funcdef', 'type_params', 'eval_input', 'typedargslist', 'dictorsetmaker', 'import_from', 'fstring_format_spec', 'fstring_expr', 'atom')
                               if r in rules]))
         else:
             idx = range(len(rules))
